@@ -23,6 +23,7 @@ import (
 	"encoding/base64"
 	"fmt"
 	"io"
+	"path/filepath"
 	"strings"
 	"time"
 
@@ -161,12 +162,17 @@ func (huc *htpasswdUserCache) WatchChanges() {
 	if huc.userFileObject == nil || huc.watcher == nil {
 		return
 	}
+	userFile := filepath.Clean(huc.userFile)
 	go func() {
 		for {
 			select {
-			case _, ok := <-huc.watcher.Events:
+			case event, ok := <-huc.watcher.Events:
 				if !ok {
 					return
+				}
+				if filepath.Clean(event.Name) != userFile {
+					// something else in the watched directory
+					continue
 				}
 				err := huc.userFileObject.Reload(nil)
 				if err != nil {
@@ -181,6 +187,14 @@ func (huc *htpasswdUserCache) WatchChanges() {
 		}
 	}()
 	err := huc.watcher.Add(huc.userFile)
+	if err != nil {
+		logger.Errorf(err.Error())
+	}
+	// The watch above is bound to the inode: it is gone as soon as the file
+	// is replaced by renaming a new file over it (sed -i, editors, config
+	// management). The watch on the directory reports the new file and
+	// everything that happens to it afterwards.
+	err = huc.watcher.Add(filepath.Dir(huc.userFile))
 	if err != nil {
 		logger.Errorf(err.Error())
 	}
